@@ -1,7 +1,8 @@
 """Ghost file-system model (DESIGN 5, C06): `fs_has` / `fs_data` maps in the ghost state, file objects, effect points.
 
-Model (assumed, stated in the evidence): a file's on-disk image at any instant is what was written so far, a write that fails
-leaves any prefix of its data behind; open(p, 'w'/'wb') creates or empties p, 'a'/'ab' creates or keeps, 'r+b' keeps (and fails when the
+Model (assumed, stated in the evidence): file objects are BUFFERED (Python's open() and GzipFile): what write() hands over reaches the disk
+at flush / close, or earlier -- any prefix of the buffered bytes may already be on disk at any instant (the buffer fills, the OS decides); a
+write or close that fails leaves any prefix of its data behind; open(p, 'w'/'wb') creates or empties p, 'a'/'ab' creates or keeps, 'r+b' keeps (and fails when the
 file is missing); truncate(n) cuts or zero-extends; close commits nothing further; os.remove deletes.  Process kill, not power
 loss.  Every operation is an EFFECT POINT (the contract's crash invariant is asserted there, for the state before and after) and
 may fail with OSError -- at most one injected fault per execution (a second fault inside the rollback cannot be survived by any
@@ -9,6 +10,26 @@ implementation)."""
 import z3
 from .core import *
 from . import lib
+
+
+import itertools as _it
+_EPOCH = _it.count(1)
+
+
+def disk(st, path):
+    """what is on disk for `path` at this instant: the committed bytes plus SOME prefix of the buffered ones"""
+    has, data = fs(st)
+    buf = z3.Select(st.ghost['fs_buf'], path)
+    k = z3.Function('flushed!%d' % st.ghost['fs_epoch'], z3.StringSort(), z3.IntSort())(path)
+    st.assume(z3.And(k >= 0, k <= z3.Length(buf)))
+    return z3.Concat(z3.Select(data, path), z3.SubString(buf, 0, k))
+
+
+def commit(st, path):
+    """flush: everything buffered for `path` is on disk"""
+    has, data = fs(st)
+    st.ghost['fs_data'] = z3.Store(data, path, z3.Concat(z3.Select(data, path), z3.Select(st.ghost['fs_buf'], path)))
+    st.ghost['fs_buf'] = z3.Store(st.ghost['fs_buf'], path, z3.StringVal(''))
 
 
 class VFile(V):
@@ -20,12 +41,15 @@ def fs(st):
         st.ghost['fs_has'] = z3.Array('fs_has0', z3.StringSort(), z3.BoolSort())
         st.ghost['fs_data'] = z3.Array('fs_data0', z3.StringSort(), z3.StringSort())
         st.ghost['fs_done'] = z3.K(z3.StringSort(), z3.BoolVal(False))       # path -> an append to it was opened, written and closed without a fault
+        st.ghost['fs_buf'] = z3.K(z3.StringSort(), z3.StringVal(''))         # path -> bytes written through an open file object and not yet known to be on disk
+        st.ghost['fs_epoch'] = 0
     return st.ghost['fs_has'], st.ghost['fs_data']
 
 
 def effect(ex, st, node, what):
     """an effect point: the crash invariant must hold here"""
     st.trace.append('L%s: effect %s' % (getattr(node, 'lineno', '?'), what))
+    fs(st); st.ghost['fs_epoch'] = next(_EPOCH)          # a new instant: how much of each buffer is on disk is chosen afresh
     if ex.spec_mode: return
     for inv in ex.ctx.c.crash_invariant:
         ex.ctx.oblige(st, 'crash-inv%s@%s:L%s' % (inv.label, what, getattr(node, 'lineno', '?')), ex.spec_eval(inv.text, st, st.env), node,
@@ -44,10 +68,18 @@ def may_fail(ex, st, node, what, partial=None):
 
 def close(ex, st, node, f, failing=True):
     """leaving a `with open(...)` block"""
+    fs(st)
     if failing:
-        may_fail(ex, st, node, 'close')
+        def part(s):
+            # a close that fails: some prefix of the buffer reached the disk
+            k = z3.FreshInt('kc'); buf = z3.Select(s.ghost['fs_buf'], f.path)
+            s.assume(z3.And(k >= 0, k <= z3.Length(buf)))
+            s.ghost['fs_data'] = z3.Store(s.ghost['fs_data'], f.path, z3.Concat(z3.Select(s.ghost['fs_data'], f.path), z3.SubString(buf, 0, k)))
+            s.ghost['fs_buf'] = z3.Store(s.ghost['fs_buf'], f.path, z3.StringVal(''))
+        may_fail(ex, st, node, 'close', part)
         if 'a' in f.mode and not st.ghost.get('faulted'):
             st.ghost['fs_done'] = z3.Store(st.ghost['fs_done'], f.path, True)
+    commit(st, f.path)
     effect(ex, st, node, 'close')
 
 
@@ -63,6 +95,7 @@ def b_open(ex, st, node, path, mode=None, **kw):
     has, data = fs(st)
     if isinstance(path, VOpt): path = ex.unopt(path, st, node)
     may_fail(ex, st, node, 'open(%s)' % m)
+    st.ghost['fs_buf'] = z3.Store(st.ghost['fs_buf'], path.term, z3.StringVal(''))
     if 'w' in m:
         st.ghost['fs_has'] = z3.Store(has, path.term, True); st.ghost['fs_data'] = z3.Store(data, path.term, z3.StringVal(''))
     elif 'a' in m:
@@ -94,17 +127,20 @@ def file_method(ex, st, node, f, name, args):
         a = args[0]
         if isinstance(a, VOpt): a = ex.unopt(a, st, node)
         payload = a.term if not f.gz else z3.FreshConst(z3.StringSort(), 'gz')
+        buf = z3.Select(st.ghost['fs_buf'], f.path)
         def part(s):
+            # a write that fails: the buffer (and a prefix of this payload) may or may not have reached the disk -- covered by the prefix choice at the effect point
             k = z3.FreshInt('k')
             s.assume(z3.And(k >= 0, k <= z3.Length(payload)))
-            s.ghost['fs_data'] = z3.Store(s.ghost['fs_data'], f.path, z3.Concat(cur, z3.SubString(payload, 0, k)))
+            s.ghost['fs_buf'] = z3.Store(s.ghost['fs_buf'], f.path, z3.Concat(buf, z3.SubString(payload, 0, k)))
             effect(ex, s, node, 'partial-write')
         may_fail(ex, st, node, 'write', part)
-        st.ghost['fs_data'] = z3.Store(data, f.path, z3.Concat(cur, payload))
+        st.ghost['fs_buf'] = z3.Store(st.ghost['fs_buf'], f.path, z3.Concat(buf, payload))
         effect(ex, st, node, 'write')
         return VNone()
     if name == 'truncate':
         n = args[0].term
+        commit(st, f.path); has, data = fs(st); cur = z3.Select(data, f.path)          # truncate() flushes the buffer first
         may_fail(ex, st, node, 'truncate')
         zeros = z3.FreshConst(z3.StringSort(), 'zeros')
         st.assume(z3.Length(zeros) == z3.If(n > z3.Length(cur), n - z3.Length(cur), 0))
@@ -112,7 +148,9 @@ def file_method(ex, st, node, f, name, args):
         st.ghost['fs_data'] = z3.Store(data, f.path, z3.If(n <= z3.Length(cur), z3.SubString(cur, 0, n), z3.Concat(cur, zeros)))
         effect(ex, st, node, 'truncate')
         return VNone()
-    if name in ('flush', 'close'):
+    if name == 'flush':
+        may_fail(ex, st, node, 'flush'); commit(st, f.path); effect(ex, st, node, 'flush'); return VNone()
+    if name == 'close':
         return VNone()
     raise ToolLimit('file method %s' % name)
 
@@ -126,7 +164,7 @@ def m_getsize(ex, st, node, path):
         s = st.fork(); s.assume(z3.Not(z3.Select(has, path.term))); s.trace.append('L%s: getsize of a missing file' % getattr(node, 'lineno', '?'))
         ex.ctx.raises.append(Outcome('raise', s, exc='OSError'))
         st.assume(z3.Select(has, path.term))
-    return VInt(z3.Length(z3.Select(data, path.term)))
+    return VInt(z3.Length(disk(st, path.term)))
 
 
 def m_remove(ex, st, node, path):
@@ -171,10 +209,11 @@ lib.MODFUNCS['os.remove'] = m_remove
 lib.MODFUNCS['glob.glob'] = m_glob
 lib.MODFUNCS['wpull.util.truncate_file'] = m_truncate_file
 lib.MODULES.update({'glob', 'shutil', 'wpull.version', 'logging'})
-SPECFUNS['content'] = lambda ex, st, p: VStr(z3.If(z3.Select(fs(st)[0], p.term), z3.Select(fs(st)[1], p.term), z3.StringVal('')), TBytes())
+SPECFUNS['content'] = lambda ex, st, p: VStr(z3.If(z3.Select(fs(st)[0], p.term), disk(st, p.term), z3.StringVal('')), TBytes())
+SPECFUNS['fs_buffered'] = lambda ex, st, p: VStr(z3.Select((fs(st), st.ghost['fs_buf'])[1], p.term), TBytes())
 SPECFUNS['fs_has'] = lambda ex, st, p: VBool(z3.Select(fs(st)[0], p.term))
-SPECFUNS['fs_data'] = lambda ex, st, p: VStr(z3.Select(fs(st)[1], p.term), TBytes())
-SPECFUNS['fs_text'] = lambda ex, st, p: VStr(z3.Select(fs(st)[1], p.term), TStr())
+SPECFUNS['fs_data'] = lambda ex, st, p: VStr(disk(st, p.term), TBytes())
+SPECFUNS['fs_text'] = lambda ex, st, p: VStr(disk(st, p.term), TStr())
 SPECFUNS['append_done'] = lambda ex, st, p: VBool(z3.Select((fs(st), st.ghost['fs_done'])[1], p.term))
 SPECFUNS['fault_in'] = lambda ex, st, what: VBool(z3.BoolVal(str(st.ghost.get('fault_op', '')).startswith(lib.zstr(what.term))))
 SPECFUNS['no_journal_with_prefix'] = lambda ex, st, prefix: VBool(z3.Not(z3.Exists([z3.String('jp!0')], z3.And(
